@@ -306,8 +306,9 @@ class BaseCube(object, metaclass=abc.ABCMeta):
         if ((order == 'nu' and cube.nu[0] > cube.nu[-1]) or
            (order == 'wav' and cube.wav[0] > cube.wav[-1])):
             cube.wav = cube.wav[::-1]
-            cube.val = cube.val[:, ::-1, :]
-            cube.unc = cube.unc[:, ::-1, :]
+            cube.val = cube.val[:, :, ::-1]
+            if cube.unc is not None:
+                cube.unc = cube.unc[:, :, ::-1]
 
         return cube
 
